@@ -693,3 +693,7 @@ pub struct ServerData {
     pub stats: ServerStats,
     pub config: ServerConfig,
 }
+
+#[cfg(all(test, pendulum_project_ntpd_rs_verif))]
+#[path = "/verif/harness/ntpd/probe_system.rs"]
+pub(crate) mod verif_probe;
